@@ -1052,8 +1052,14 @@ func (g *sGen) snippet() *sStmt {
 	numeric := func(c sChain) bool { return noPtr(c) && c.res().isNumeric() }
 	dumpable := func(c sChain) bool { return noPtr(c) }
 	valStruct := func(c sChain) bool { return noPtr(c) && c.res().isValueStruct() }
+	// what is read into a local: while the finding general-field-read-aliases-field is open, not a
+	// pointer or func field (the local would alias the field)
+	readable := dumpable
+	if g.avoid["structrole.general-field-read"] {
+		readable = func(c sChain) bool { return noPtr(c) && !c.res().ptr && !c.res().isFunc() }
+	}
 	ci, ok1 := pickChain(all, numeric)
-	c2, ok2 := pickChain(all, dumpable)
+	c2, ok2 := pickChain(all, readable)
 	c3, ok3 := pickChain(all, dumpable)
 	if !ok1 || !ok2 || !ok3 {
 		return nil
@@ -1134,9 +1140,14 @@ func (g *sGen) snippet() *sStmt {
 		dump(gname, top)
 	case 3: // closure over the parameters
 		s.role = "closure"
-		s.raw = []string{"func() { o" + wi.text() + "++; w" + w3.text() + " = o" + w3.text() + "; println(\"C\", $ID, o" + ci.text() + ") }()", x + " := o" + cpre.text(), y + " := w" + w3.text()}
+		s.raw = []string{"func() { o" + wi.text() + "++; w" + w3.text() + " = o" + w3.text() + "; println(\"C\", $ID, o" + ci.text() + ") }()", x + " := o" + cpre.text()}
 		dump(x, cpre.res())
-		dump(y, w3.res())
+		if readable(w3) {
+			s.raw = append(s.raw, y+" := w"+w3.text())
+			dump(y, w3.res())
+		} else {
+			s.raw = append(s.raw, w.dumpLines("w"+w3.text(), w3.res())...)
+		}
 	case 4: // field of a call result
 		s.role = "callresult"
 		mk := "Pq_mk$ID_" + sfx
